@@ -1,7 +1,7 @@
 (* C11 — Every scanned rule can be retrieved by its index from any backing store.
    Only statements here; every proof is [exact <lemma>]. *)
 From Coq Require Import List ZArith.
-From UF Require Import Base.Bytes Model.Rule Model.Storage Proofs.C11Proofs.
+From UF Require Import Base.Bytes Model.Rule Model.Storage Proofs.C11Proofs Proofs.EndToEnd.
 Import ListNotations.
 
 (* index packing: Go's shift/or/mask with int32/int64 conversions round-trips and does not overflow for
@@ -45,3 +45,14 @@ Theorem C11_string_file_same : forall l off chunks, (0 <= off < Z.of_nat (length
   retrieve_file l off chunks = retrieve_string l off.
 Proof. exact string_file_same. Qed.
 Print Assumptions C11_string_file_same.
+
+(* the storage as a whole: with distinct 32-bit list ids and lists shorter than 2 GiB, every rule the storage
+   scanner yields is retrieved again through the storage index reported with it; the index identifies the rule *)
+Theorem C11_storage_retrieve : forall s out r idx, storage_ok s -> storage_scan s = Ok out -> In (r, idx) out ->
+  storage_retrieve s idx = Ok (Some r).
+Proof. exact storage_retrieve_scanned. Qed.
+Print Assumptions C11_storage_retrieve.
+Theorem C11_index_identifies_rule : forall s out r1 r2 idx, storage_ok s -> storage_scan s = Ok out ->
+  In (r1, idx) out -> In (r2, idx) out -> r1 = r2.
+Proof. exact storage_index_injective. Qed.
+Print Assumptions C11_index_identifies_rule.
